@@ -48,6 +48,22 @@ type sstCase struct {
 	extra        []sstProbe // hand-written probes of a corpus case, run after the generated ones
 	big          string     // "" or the size classes of a big-record case (values / keys above 32 KiB, 64 KiB, 1 MiB): reduced probe list
 	cmp          string     // key comparator handed to writer and readers ("" = skiplist.BytesComparator): same ORDER, other magnitudes
+	feed         string     // how the caller owns the slices it hands to the writer ("" = a fresh slice per key and value), see sstFeeds
+}
+
+// how the writer is fed. A caller that produces its keys and values into ONE re-used buffer each (a scanner, a decoder,
+// an iterator recycling its buffers) overwrites them in place between the calls and does what it likes with them once
+// the last call returned; the table and its metadata must not depend on it (the writer has to keep private copies).
+//   reused:          one key buffer and one value buffer, overwritten in place by the next call's key and value
+//   reused+scribble: as before, and both buffers are filled with garbage after EVERY call (also the failed ones)
+// Both fill the buffers with garbage after the last call, before Close. For the simple writer (which takes a skip-list
+// map and closes the table itself) the map's key and value slices are overwritten after WriteSkipListMap returned.
+var sstFeeds = []string{"reused", "reused+scribble"}
+
+func sstScribble(b []byte, salt byte) {
+	for i := range b {
+		b[i] = salt ^ byte(i*37+11)
+	}
 }
 
 // contract-conforming comparators over the bytes order whose results are not restricted to -1/0/+1
@@ -122,6 +138,9 @@ func (c *sstCase) String() string {
 	}
 	if c.big != "" {
 		cmp += " big=" + c.big
+	}
+	if c.feed != "" {
+		cmp += " feed=" + c.feed
 	}
 	return fmt.Sprintf("dcomp=%d icomp=%d wbuf=%d rbuf=%d bloomN=%d simple=%v style=%s flavour=%s%s calls=%s",
 		c.dcomp, c.icomp, c.wbuf, c.rbuf, c.bloomN, c.simple, c.style, c.flavour, cmp, c.callsStringShort(c.calls))
@@ -1128,6 +1147,7 @@ func runSst(res *Result, drv *Driver, seed uint64, n int, tier string, only int)
 			continue
 		}
 		r := NewRng(seed, uint64(i))
+		sstChooseFeed(c, seed, i)
 		dir := filepath.Join(root, fmt.Sprintf("c%d", ci))
 		if err := os.Mkdir(dir, 0o755); err != nil {
 			return err
@@ -1149,6 +1169,7 @@ func runSst(res *Result, drv *Driver, seed uint64, n int, tier string, only int)
 		if r2 := NewRng(seed^0xc0a7a2a70e, uint64(i)); r2.Chance(50) {
 			c.cmp = sstCmpNames[r2.Intn(len(sstCmpNames))]
 		}
+		sstChooseFeed(c, seed, i)
 		dir := filepath.Join(root, fmt.Sprintf("t%d", i))
 		if err := os.Mkdir(dir, 0o755); err != nil {
 			return err
@@ -1170,6 +1191,7 @@ func runSst(res *Result, drv *Driver, seed uint64, n int, tier string, only int)
 		}
 		r := NewRng(seed^0xb16b16b16, uint64(i))
 		c := sstGenBigCase(r, j, tier)
+		sstChooseFeed(c, seed, i)
 		dir := filepath.Join(root, fmt.Sprintf("b%d", j))
 		if err := os.Mkdir(dir, 0o755); err != nil {
 			return err
@@ -1180,6 +1202,14 @@ func runSst(res *Result, drv *Driver, seed uint64, n int, tier string, only int)
 		_ = os.RemoveAll(dir)
 	}
 	return nil
+}
+
+// the feeding style comes from a generator state of its own: programs, options and every expected answer are those of
+// the case fed with fresh slices
+func sstChooseFeed(c *sstCase, seed uint64, i int) {
+	if r := NewRng(seed^0xfeedb0ffe2, uint64(i)); r.Chance(50) {
+		c.feed = sstFeeds[r.Intn(len(sstFeeds))]
+	}
 }
 
 func sstCorpus(seed uint64) []*sstCase {
@@ -1274,10 +1304,27 @@ func sstOne(res *Result, drv *Driver, r *Rng, c *sstCase, idx int, dir string, t
 		sstables.DataCompressionType(c.dcomp), sstables.IndexCompressionType(c.icomp), sstables.WriteBufferSizeBytes(c.wbuf),
 		sstables.BloomExpectedNumberOfElements(c.bloomN), sstables.BloomFalsePositiveProbability(c.bloomP)}
 	var results []string
+	if c.feed == "" {
+		res.Stat("feed:fresh-slice-per-call")
+	} else {
+		res.Stat("feed:" + c.feed)
+	}
 	if c.simple {
 		m := skiplist.NewSkipListMap[[]byte, []byte](sstCmpFor(c.cmp))
+		var owned [][]byte // the caller's slices inside the map
 		for _, call := range c.calls {
-			m.Insert(call.key, call.val)
+			k, v := call.key, call.val
+			if c.feed != "" {
+				// private copies (nil stays nil): they are overwritten once the writer returned
+				if k != nil {
+					k = append([]byte{}, k...)
+				}
+				if v != nil {
+					v = append([]byte{}, v...)
+				}
+				owned = append(owned, k, v)
+			}
+			m.Insert(k, v)
 		}
 		sw, err := sstables.NewSSTableSimpleWriter(wopts...)
 		if err != nil {
@@ -1286,6 +1333,9 @@ func sstOne(res *Result, drv *Driver, r *Rng, c *sstCase, idx int, dir string, t
 		if err := safely(func() error { return sw.WriteSkipListMap(m) }); err != nil {
 			res.Violate(idx, "C15", "simple-writer-failed", err.Error(), cs)
 			return nil
+		}
+		for i, b := range owned {
+			sstScribble(b, byte(0xd0+i))
 		}
 		for range c.calls {
 			results = append(results, "ok")
@@ -1302,9 +1352,37 @@ func sstOne(res *Result, drv *Driver, r *Rng, c *sstCase, idx int, dir string, t
 		w.VerifWrapWriters(
 			func(d recordio.WriterI) recordio.WriterI { return &sstFaultyData{d, &failData} },
 			func(x rProto.WriterI) rProto.WriterI { return &sstFaultyIndex{x, &failIndex} })
-		for _, call := range c.calls {
+		// the caller's two buffers (feed != ""): as long as the longest key / value
+		var kbuf, vbuf []byte
+		if c.feed != "" {
+			kl, vl := 0, 0
+			for _, call := range c.calls {
+				kl, vl = max(kl, len(call.key)), max(vl, len(call.val))
+			}
+			kbuf, vbuf = make([]byte, kl), make([]byte, vl)
+		}
+		for ci, call := range c.calls {
 			failData, failIndex = call.fault == 'd', call.fault == 'i'
-			err := safely(func() error { return w.WriteNext(call.key, call.val) })
+			k, v := call.key, call.val
+			if c.feed != "" {
+				// nil stays nil (a nil value is a tombstone), everything else lives in the re-used buffers
+				if k != nil {
+					k = kbuf[:len(k)]
+					copy(k, call.key)
+				}
+				if v != nil {
+					v = vbuf[:len(v)]
+					copy(v, call.val)
+				}
+				if ci > 0 {
+					res.Stat("feed:call-from-overwritten-buffers")
+				}
+			}
+			err := safely(func() error { return w.WriteNext(k, v) })
+			if c.feed == "reused+scribble" || (c.feed != "" && ci == len(c.calls)-1) {
+				sstScribble(kbuf, byte(0xa5+ci))
+				sstScribble(vbuf, byte(0x5a+ci))
+			}
 			failData, failIndex = false, false
 			results = append(results, sstWriteResult(err))
 			res.Stat("call:" + results[len(results)-1])
